@@ -1,4 +1,494 @@
-From Coq Require Import ZArith Bool List Reals Lra Lia.
+(* Lemmas about Model/Scores.v, part 1: the glue (transform first, optional
+   pair removal) for every arithmetic instance; numpy's pairwise summation is
+   the sum; mean / variance / Pearson in textbook form over the reals. *)
+From Coq Require Import ZArith Bool List Reals Lra Lia Psatz.
 From Hy Require Import Base.Num Gen.Consts Gen.ConstsC04 Model.Scores.
 Import ListNotations.
-Lemma placeholder_c04 : True. Proof. exact I. Qed.
+
+(* ================================================================== *)
+(* 1. glue laws: any arithmetic instance (binary64 included)            *)
+
+Section Glue.
+Context {T : Type} (N : NumOps T) (eps : T) (nln : T -> T).
+
+Definition idT (x : T) : T := x.
+
+Lemma bias_transform_first fwd excl ty obs sim :
+  bias N eps nln fwd excl ty obs sim =
+  bias N eps nln idT excl ty (map fwd obs) (map fwd sim).
+Proof. unfold bias, idT. now rewrite !map_id. Qed.
+
+Lemma nse_transform_first fwd excl obs sim :
+  nse N fwd excl obs sim = nse N idT excl (map fwd obs) (map fwd sim).
+Proof. unfold nse, idT. now rewrite !map_id. Qed.
+
+Lemma kge_transform_first fwd excl obs sim :
+  kge N eps fwd excl obs sim = kge N eps idT excl (map fwd obs) (map fwd sim).
+Proof. unfold kge, idT. now rewrite !map_id. Qed.
+
+(* corr: the rows are selected on the raw data, so the law needs a transform
+   that keeps missing values missing and nothing else *)
+Lemma corr_transform_first fwd excl st ty obs ens :
+  (forall x, nisnan N (fwd x) = nisnan N x) ->
+  corr N eps fwd excl st ty obs ens =
+  corr N eps idT excl st ty (map fwd obs) (map (map fwd) ens).
+Proof.
+  intros Hnan. unfold corr, corr_p, idT.
+  rewrite !map_length.
+  destruct (negb (Nat.eqb (length obs) (length ens))); [reflexivity|].
+  (* relate the two filtered row lists by the map (x, fwd x) -> (fwd x, fwd x) *)
+  set (g := fun r : (T * T) * list (T * T) =>
+              ((snd (fst r), snd (fst r)), map (fun e => (snd e, snd e)) (snd r))).
+  assert (Hcomb : forall (o : list T) (e : list (list T)),
+    combine (map (fun x => (x, x)) (map fwd o))
+            (map (map (fun x => (x, x))) (map (map fwd) e)) =
+    map g (combine (map (fun x => (x, fwd x)) o) (map (map (fun x => (x, fwd x))) e))).
+  { induction o as [|a o IH]; intros [|r e]; simpl; try reflexivity.
+    rewrite IH. f_equal. unfold g; simpl. rewrite !map_map. reflexivity. }
+  rewrite Hcomb.
+  assert (Hvalid : forall (o : list T) (e : list (list T)),
+    filter (row_valid N) (map g (combine (map (fun x => (x, fwd x)) o)
+                                         (map (map (fun x => (x, fwd x))) e))) =
+    map g (filter (row_valid N) (combine (map (fun x => (x, fwd x)) o)
+                                         (map (map (fun x => (x, fwd x))) e)))).
+  { induction o as [|a o IH]; intros [|r e]; simpl; try reflexivity.
+    rewrite IH.
+    assert (Hv : row_valid N (g (a, fwd a, map (fun x => (x, fwd x)) r)) =
+                 row_valid N (a, fwd a, map (fun x => (x, fwd x)) r)).
+    { unfold row_valid, g; simpl. rewrite Hnan. f_equal.
+      rewrite !map_map; simpl.
+      induction r as [|x r IHr]; simpl; [reflexivity|]. now rewrite Hnan, IHr. }
+    rewrite Hv.
+    destruct (row_valid N (a, fwd a, map (fun x => (x, fwd x)) r)); simpl; reflexivity. }
+  rewrite Hvalid.
+  destruct (filter (row_valid N) (combine (map (fun x => (x, fwd x)) obs)
+                                          (map (map (fun x => (x, fwd x))) ens))) as [|r0 rows];
+    [reflexivity|].
+  assert (H1 : forall L, map (fun r : (T * T) * list (T * T) => snd (fst r)) (map g L) =
+                         map (fun r => snd (fst r)) L).
+  { intros L. rewrite map_map. apply map_ext. intros r; reflexivity. }
+  assert (H2 : forall L, map (fun r : (T * T) * list (T * T) => rowstat N st (map snd (snd r))) (map g L) =
+                         map (fun r => rowstat N st (map snd (snd r))) L).
+  { intros L. rewrite map_map. apply map_ext. intros r; unfold g; simpl. now rewrite map_map. }
+  generalize (r0 :: rows) (@nil_cons _ r0 rows). intros L HL.
+  rewrite <- (H1 L), <- (H2 L).
+  destruct L as [|q L]; [congruence|]. reflexivity.
+Qed.
+
+(* ---- excludenull ---- *)
+Lemma combine_fst_snd {A B} (l : list (A * B)) : combine (map fst l) (map snd l) = l.
+Proof. induction l as [|[a b] l IH]; simpl; [reflexivity|]. now rewrite IH. Qed.
+
+Lemma nonull_spec o s o' s' :
+  nonull N o s = Some (o', s') ->
+  combine o' s' = filter (complete N) (combine o s) /\ length o' = length s' /\ o' <> [].
+Proof.
+  unfold nonull. destruct (filter (complete N) (combine o s)) as [|p ps] eqn:E; [discriminate|].
+  intros H; inversion H; subst; clear H.
+  split; [|split].
+  - change (combine (map fst (p :: ps)) (map snd (p :: ps)) = p :: ps). apply combine_fst_snd.
+  - simpl. now rewrite !map_length.
+  - discriminate.
+Qed.
+
+Lemma nonull_none o s :
+  nonull N o s = None <-> filter (complete N) (combine o s) = [].
+Proof.
+  unfold nonull. destruct (filter (complete N) (combine o s)); split; intros; congruence.
+Qed.
+
+(* data without missing values are left alone *)
+Lemma nonull_clean o s :
+  length o = length s -> o <> [] ->
+  forallb (fun x => negb (nisnan N x)) o = true ->
+  forallb (fun x => negb (nisnan N x)) s = true ->
+  nonull N o s = Some (o, s).
+Proof.
+  intros Hl Hne Ho Hs. unfold nonull.
+  assert (Hf : filter (complete N) (combine o s) = combine o s).
+  { revert s Hl Hs Ho. clear Hne. induction o as [|a o IH]; intros [|b s] Hl Hs Ho; simpl in *;
+      try reflexivity; try discriminate.
+    apply andb_true_iff in Ho as [Ha Ho]. apply andb_true_iff in Hs as [Hb Hs].
+    unfold complete at 1; simpl. rewrite Ha, Hb; simpl. f_equal. apply IH; auto. }
+  rewrite Hf.
+  destruct o as [|a o]; [congruence|]. destruct s as [|b s]; [discriminate|].
+  cbn [combine]. f_equal.
+  change (map fst ((a, b) :: combine o s), map snd ((a, b) :: combine o s))
+    with (map fst (combine (a :: o) (b :: s)), map snd (combine (a :: o) (b :: s))).
+  f_equal.
+  - clear -Hl. revert Hl. generalize (b :: s) as y, (a :: o) as x.
+    intros y x; revert y; induction x as [|u x IH]; intros [|v y] H; simpl in *;
+      try reflexivity; try discriminate. f_equal; apply IH; lia.
+  - clear -Hl. revert Hl. generalize (b :: s) as y, (a :: o) as x.
+    intros y x; revert y; induction x as [|u x IH]; intros [|v y] H; simpl in *;
+      try reflexivity; try discriminate. f_equal; apply IH; lia.
+Qed.
+
+(* with excludenull the score is that of the series with the incomplete pairs removed *)
+Lemma excl_is_pair_removal core o s o' s' :
+  length o = length s -> nonull N o s = Some (o', s') ->
+  with_excl N true core o s = with_excl N false core o' s'.
+Proof.
+  intros Hl Hn. unfold with_excl. rewrite Hl, Nat.eqb_refl; simpl. rewrite Hn.
+  destruct (nonull_spec _ _ _ _ Hn) as (_ & Hl' & _). now rewrite Hl', Nat.eqb_refl.
+Qed.
+
+Lemma excl_all_missing core o s :
+  length o = length s -> nonull N o s = None -> with_excl N true core o s = SErr.
+Proof. intros Hl Hn. unfold with_excl. rewrite Hl, Nat.eqb_refl; simpl. now rewrite Hn. Qed.
+
+Lemma excl_shape_error excl core o s :
+  length o <> length s -> with_excl N excl core o s = SErr.
+Proof.
+  intros H. unfold with_excl. apply Nat.eqb_neq in H. now rewrite H.
+Qed.
+
+(* on complete data excludenull changes nothing *)
+Lemma excl_clean core o s :
+  length o = length s -> o <> [] ->
+  forallb (fun x => negb (nisnan N x)) o = true ->
+  forallb (fun x => negb (nisnan N x)) s = true ->
+  with_excl N true core o s = with_excl N false core o s.
+Proof.
+  intros Hl Hne Ho Hs.
+  rewrite (excl_is_pair_removal core o s o s Hl (nonull_clean o s Hl Hne Ho Hs)). reflexivity.
+Qed.
+
+End Glue.
+
+(* ================================================================== *)
+(* 2. real numbers: sums                                                *)
+
+Open Scope R_scope.
+
+Fixpoint sumR (l : list R) : R := match l with [] => 0 | x :: r => x + sumR r end.
+Definition lenR {A} (l : list A) : R := IZR (Z.of_nat (length l)).
+
+Lemma lenR_cons {A} (a : A) l : lenR (a :: l) = 1 + lenR l.
+Proof. unfold lenR. cbn [length]. rewrite Nat2Z.inj_succ, succ_IZR. lra. Qed.
+Lemma lenR_nil {A} : lenR (@nil A) = 0.
+Proof. reflexivity. Qed.
+Lemma lenR_nonneg {A} (l : list A) : 0 <= lenR l.
+Proof. unfold lenR. apply IZR_le. lia. Qed.
+Lemma lenR_pos {A} (l : list A) : l <> [] -> 0 < lenR l.
+Proof. destruct l; [congruence|]. intros _. rewrite lenR_cons. pose proof (lenR_nonneg l). lra. Qed.
+Lemma lenR_map {A B} (f : A -> B) l : lenR (map f l) = lenR l.
+Proof. unfold lenR. now rewrite map_length. Qed.
+
+Lemma sumR_app l1 l2 : sumR (l1 ++ l2) = sumR l1 + sumR l2.
+Proof. induction l1 as [|x l1 IH]; simpl; [lra | rewrite IH; lra]. Qed.
+
+Lemma sumR_firstn_skipn k l : sumR (firstn k l) + sumR (skipn k l) = sumR l.
+Proof. rewrite <- sumR_app. now rewrite firstn_skipn. Qed.
+
+Lemma sum_seq_R acc l : sum_seq RR acc l = acc + sumR l.
+Proof.
+  unfold sum_seq. revert acc; induction l as [|x l IH]; intros acc; simpl; [lra|].
+  rewrite IH. lra.
+Qed.
+
+Lemma pw_blocks_R : forall n l, (length l <= n)%nat ->
+  forall r0 r1 r2 r3 r4 r5 r6 r7,
+  pw_blocks RR r0 r1 r2 r3 r4 r5 r6 r7 l = r0 + r1 + r2 + r3 + r4 + r5 + r6 + r7 + sumR l.
+Proof.
+  induction n as [|n IH]; intros l Hl r0 r1 r2 r3 r4 r5 r6 r7.
+  - destruct l; [|simpl in Hl; lia]. cbn. lra.
+  - destruct l as [|a0 [|a1 [|a2 [|a3 [|a4 [|a5 [|a6 [|a7 rest]]]]]]]];
+      try (cbn -[sumR]; rewrite ?sum_seq_R; cbn; lra).
+    cbn [pw_blocks]. rewrite IH by (simpl in Hl; lia). cbn. lra.
+Qed.
+
+Lemma pw_block_R l : pw_block RR l = sumR l.
+Proof.
+  destruct l as [|a0 [|a1 [|a2 [|a3 [|a4 [|a5 [|a6 [|a7 rest]]]]]]]];
+    try (cbn -[sumR]; rewrite ?sum_seq_R; cbn; lra).
+  cbn [pw_block]. rewrite (pw_blocks_R (length rest)) by lia. cbn. lra.
+Qed.
+
+Lemma pw_sum_R fuel l : pw_sum RR fuel l = sumR l.
+Proof.
+  revert l; induction fuel as [|f IH]; intros l; cbn [pw_sum].
+  - destruct (Nat.leb (length l) 128); [apply pw_block_R|]. rewrite sum_seq_R. cbn. lra.
+  - destruct (Nat.leb (length l) 128); [apply pw_block_R|].
+    rewrite !IH. cbn [nadd RR]. apply sumR_firstn_skipn.
+Qed.
+
+(* numpy's pairwise summation computes the sum: every length *)
+Lemma np_sum_R l : np_sum RR l = sumR l.
+Proof. apply pw_sum_R. Qed.
+
+(* ---- algebra of sums ---- *)
+Lemma sumR_map_ext {A} (f g : A -> R) l :
+  (forall x, In x l -> f x = g x) -> sumR (map f l) = sumR (map g l).
+Proof.
+  induction l as [|a l IH]; intros H; simpl; [reflexivity|].
+  rewrite (H a) by (left; reflexivity). rewrite IH; [reflexivity|].
+  intros x Hx; apply H; right; exact Hx.
+Qed.
+
+Lemma sumR_map_scal {A} c (f : A -> R) l : sumR (map (fun x => c * f x) l) = c * sumR (map f l).
+Proof. induction l as [|a l IH]; simpl; [lra | rewrite IH; lra]. Qed.
+
+Lemma sumR_map_plus {A} (f g : A -> R) l :
+  sumR (map (fun x => f x + g x) l) = sumR (map f l) + sumR (map g l).
+Proof. induction l as [|a l IH]; simpl; [lra | rewrite IH; lra]. Qed.
+
+Lemma sumR_map_const {A} c (l : list A) : sumR (map (fun _ => c) l) = c * lenR l.
+Proof. induction l as [|a l IH]; [unfold lenR; simpl; lra|]. simpl. rewrite IH, lenR_cons. lra. Qed.
+
+Lemma sumR_map_id l : sumR (map (fun x => x) l) = sumR l.
+Proof. now rewrite map_id. Qed.
+
+Lemma sumR_nonneg {A} (f : A -> R) l : (forall x, 0 <= f x) -> 0 <= sumR (map f l).
+Proof. intros H. induction l as [|a l IH]; simpl; [lra|]. specialize (H a). lra. Qed.
+
+Lemma sumR_zero_all {A} (f : A -> R) l :
+  (forall x, 0 <= f x) -> sumR (map f l) = 0 -> forall x, In x l -> f x = 0.
+Proof.
+  intros Hf. induction l as [|a l IH]; intros H x Hx; [contradiction|].
+  simpl in H. pose proof (Hf a). pose proof (sumR_nonneg f l Hf).
+  destruct Hx as [->|Hx]; [lra|]. apply IH; [lra|exact Hx].
+Qed.
+
+(* ---- mean, sums of squares ---- *)
+Definition meanR (l : list R) : R := sumR l / lenR l.
+(* sum of squared deviations from the mean *)
+Definition SS (l : list R) : R := sumR (map (fun x => (x - meanR l) * (x - meanR l)) l).
+(* sum of squared errors *)
+Definition SE (o s : list R) : R :=
+  sumR (map (fun p => (snd p - fst p) * (snd p - fst p)) (combine o s)).
+(* sum of cross products of deviations *)
+Definition SXY (x y : list R) : R :=
+  sumR (map (fun p => (fst p - meanR x) * (snd p - meanR y)) (combine x y)).
+Definition sdR (l : list R) : R := sqrt (SS l / lenR l).
+
+Lemma mean_R l : mean RR l = meanR l.
+Proof. unfold mean, meanR, nlen, lenR. cbn [ndiv nofZ RR]. now rewrite np_sum_R. Qed.
+
+Lemma var_R l : var RR l = SS l / lenR l.
+Proof.
+  unfold var, SS, nlen, lenR. cbn [ndiv nofZ nsub nmul RR]. rewrite np_sum_R, mean_R. reflexivity.
+Qed.
+
+Lemma std_R l : std RR l = sdR l.
+Proof. unfold std, sdR. cbn [nsqrt RR]. now rewrite var_R. Qed.
+
+Lemma SS_nonneg l : 0 <= SS l.
+Proof. unfold SS. apply sumR_nonneg. intros x. apply Rle_0_sqr. Qed.
+Lemma SE_nonneg o s : 0 <= SE o s.
+Proof. unfold SE. apply sumR_nonneg. intros x. apply Rle_0_sqr. Qed.
+
+Lemma SS_nil : SS [] = 0. Proof. reflexivity. Qed.
+
+Lemma SS_pos_nonempty l : 0 < SS l -> l <> [].
+Proof. intros H E; subst. rewrite SS_nil in H. lra. Qed.
+
+Lemma SS_single a : SS [a] = 0.
+Proof. unfold SS, meanR, lenR. simpl. field. Qed.
+
+(* a positive spread needs at least two values *)
+Lemma SS_pos_two l : 0 < SS l -> (2 <= length l)%nat.
+Proof.
+  intros H. destruct l as [|a [|b l]]; simpl; try lia.
+  - rewrite SS_nil in H; lra.
+  - rewrite SS_single in H; lra.
+Qed.
+
+Lemma sdR_nonneg l : 0 <= sdR l.
+Proof. apply sqrt_pos. Qed.
+
+Lemma sdR_pos_SS l : 0 < sdR l -> 0 < SS l.
+Proof.
+  unfold sdR. intros H.
+  destruct (Rle_lt_dec (SS l / lenR l) 0) as [Hle|Hlt].
+  - rewrite sqrt_neg_0 in H by exact Hle. lra.
+  - destruct l as [|a l]; [rewrite SS_nil in Hlt; unfold Rdiv in Hlt; lra|].
+    pose proof (lenR_pos (a :: l) ltac:(discriminate)) as Hn.
+    pose proof (SS_nonneg (a :: l)) as H0.
+    destruct (Req_dec (SS (a :: l)) 0) as [E|E]; [rewrite E in Hlt; unfold Rdiv in Hlt; lra|lra].
+Qed.
+
+(* affine maps *)
+Lemma meanR_affine a b l : l <> [] ->
+  meanR (map (fun x => a * x + b) l) = a * meanR l + b.
+Proof.
+  intros Hne. unfold meanR. rewrite lenR_map.
+  rewrite (sumR_map_plus (fun x => a * x) (fun _ => b)), sumR_map_scal, sumR_map_const, sumR_map_id.
+  pose proof (lenR_pos l Hne). field. lra.
+Qed.
+
+Lemma SS_affine a b l : l <> [] ->
+  SS (map (fun x => a * x + b) l) = a * a * SS l.
+Proof.
+  intros Hne. unfold SS. rewrite meanR_affine by exact Hne. rewrite map_map.
+  rewrite <- sumR_map_scal. apply sumR_map_ext. intros x _. ring.
+Qed.
+
+Lemma combine_map2 {A B} (f : A -> B) (x y : list A) :
+  combine (map f x) (map f y) = map (fun p => (f (fst p), f (snd p))) (combine x y).
+Proof.
+  revert y; induction x as [|a x IH]; intros [|b y]; simpl; try reflexivity. now rewrite IH.
+Qed.
+
+Lemma SE_affine a b o s :
+  SE (map (fun x => a * x + b) o) (map (fun x => a * x + b) s) = a * a * SE o s.
+Proof.
+  unfold SE. rewrite combine_map2, map_map. rewrite <- sumR_map_scal.
+  apply sumR_map_ext. intros p _. simpl. ring.
+Qed.
+
+Lemma SXY_affine a b x y : x <> [] -> y <> [] ->
+  SXY (map (fun v => a * v + b) x) (map (fun v => a * v + b) y) = a * a * SXY x y.
+Proof.
+  intros Hx Hy. unfold SXY. rewrite !meanR_affine by assumption.
+  rewrite combine_map2, map_map. rewrite <- sumR_map_scal.
+  apply sumR_map_ext. intros p _. simpl. ring.
+Qed.
+
+Lemma SE_self o : SE o o = 0.
+Proof.
+  unfold SE. induction o as [|a o IH]; simpl; [reflexivity|]. rewrite IH. ring.
+Qed.
+
+Lemma SXY_self x : SXY x x = SS x.
+Proof.
+  unfold SXY, SS. generalize (meanR x) as m. intros m.
+  induction x as [|a x IH]; simpl; [reflexivity|]. now rewrite IH.
+Qed.
+
+(* the simulation that is constantly the observed mean has SE = SS *)
+Lemma SE_mean o : SE o (map (fun _ => meanR o) o) = SS o.
+Proof.
+  unfold SE, SS. generalize (meanR o) as m. intros m.
+  induction o as [|a o IH]; simpl; [reflexivity|]. rewrite IH. ring.
+Qed.
+
+(* ---- Cauchy-Schwarz ---- *)
+Definition dotR (a b : list R) : R := sumR (map (fun p => fst p * snd p) (combine a b)).
+
+Lemma dot_R a b : dot RR a b = dotR a b.
+Proof. unfold dot, dotR. rewrite sum_seq_R. cbn. lra. Qed.
+
+Lemma cs_step x y p A B :
+  0 <= A -> 0 <= B -> p * p <= A * B ->
+  (x * y + p) * (x * y + p) <= (x * x + A) * (y * y + B).
+Proof.
+  intros HA HB Hp.
+  set (X := x * x). set (Y := y * y).
+  assert (HX : 0 <= X) by apply Rle_0_sqr.
+  assert (HY : 0 <= Y) by apply Rle_0_sqr.
+  set (u := X * B + Y * A). set (v := 2 * (x * y) * p).
+  assert (H0 : 0 <= u) by (apply Rplus_le_le_0_compat; apply Rmult_le_pos; assumption).
+  assert (HXY : 0 <= 4 * X * Y).
+  { apply Rmult_le_pos; [apply Rmult_le_pos; [lra|assumption]|assumption]. }
+  assert (H4 : 4 * X * Y * (p * p) <= 4 * X * Y * (A * B)) by (apply Rmult_le_compat_l; assumption).
+  assert (H5 : 0 <= (X * B - Y * A) * (X * B - Y * A)) by apply Rle_0_sqr.
+  assert (Hv2 : v * v <= u * u).
+  { replace (v * v) with (4 * X * Y * (p * p)) by (unfold v, X, Y; ring).
+    replace (u * u) with (4 * X * Y * (A * B) + (X * B - Y * A) * (X * B - Y * A)) by (unfold u; ring).
+    lra. }
+  assert (H : v <= u).
+  { destruct (Rle_lt_dec v u) as [|Hlt]; [assumption|exfalso].
+    assert (u * u < v * v) by (apply Rmult_le_0_lt_compat; lra). lra. }
+  apply Rle_trans with (X * Y + u + A * B); [|right; unfold u, X, Y; ring].
+  apply Rle_trans with (X * Y + v + p * p); [right; unfold v, X, Y; ring | lra].
+Qed.
+
+Lemma cauchy_schwarz a b : dotR a b * dotR a b <= dotR a a * dotR b b.
+Proof.
+  assert (Hnn : forall l, 0 <= dotR l l).
+  { intros l. unfold dotR. induction l as [|x l IH]; simpl; [lra|].
+    pose proof (Rle_0_sqr x) as Hs; unfold Rsqr in Hs. lra. }
+  revert b; induction a as [|x a IH]; intros b.
+  - unfold dotR; simpl. lra.
+  - destruct b as [|y b].
+    + unfold dotR at 1 2 4; simpl. pose proof (Hnn (x :: a)). lra.
+    + unfold dotR in *. simpl.
+      apply cs_step; [apply Hnn | apply Hnn | apply IH].
+Qed.
+
+(* centred series *)
+Lemma dotR_centered x y :
+  dotR (map (fun v => v - meanR x) x) (map (fun v => v - meanR y) y) = SXY x y.
+Proof.
+  unfold dotR, SXY. generalize (meanR x) as mx, (meanR y) as my. intros mx my.
+  revert y; induction x as [|a x IH]; intros [|b y]; simpl; try reflexivity. now rewrite IH.
+Qed.
+
+Lemma dotR_centered_self x : dotR (map (fun v => v - meanR x) x) (map (fun v => v - meanR x) x) = SS x.
+Proof. rewrite dotR_centered. apply SXY_self. Qed.
+
+Lemma SXY_bound x y : SXY x y * SXY x y <= SS x * SS y.
+Proof.
+  rewrite <- dotR_centered, <- (dotR_centered_self x), <- (dotR_centered_self y).
+  apply cauchy_schwarz.
+Qed.
+
+(* ---- Pearson correlation ---- *)
+Definition pearsonR (x y : list R) : R := SXY x y / sqrt (SS x * SS y).
+
+Lemma pearsonR_bound x y : 0 < SS x -> 0 < SS y -> -1 <= pearsonR x y <= 1.
+Proof.
+  intros Hx Hy. unfold pearsonR.
+  assert (Hp : 0 < SS x * SS y) by (apply Rmult_lt_0_compat; assumption).
+  assert (Hs : 0 < sqrt (SS x * SS y)) by (apply sqrt_lt_R0; exact Hp).
+  pose proof (SXY_bound x y) as Hb.
+  assert (Hq : sqrt (SS x * SS y) * sqrt (SS x * SS y) = SS x * SS y) by (apply sqrt_sqrt; lra).
+  assert (Habs : -(sqrt (SS x * SS y)) <= SXY x y <= sqrt (SS x * SS y)).
+  { split; nra. }
+  split.
+  - apply Rmult_le_reg_r with (sqrt (SS x * SS y)); [exact Hs|].
+    unfold Rdiv. rewrite Rmult_assoc, Rinv_l by lra. lra.
+  - apply Rmult_le_reg_r with (sqrt (SS x * SS y)); [exact Hs|].
+    unfold Rdiv. rewrite Rmult_assoc, Rinv_l by lra. lra.
+Qed.
+
+Lemma clip1_R r : -1 <= r <= 1 -> clip1 RR r = r.
+Proof.
+  intros [H1 H2]. unfold clip1. cbn [nltb nopp n1 RR].
+  destruct (Rltb r (- (1))) eqn:E1; [apply Rltb_true in E1; lra|].
+  destruct (Rltb 1 r) eqn:E2; [apply Rltb_true in E2; lra|]. reflexivity.
+Qed.
+
+(* np.corrcoef(x, y)[0, 1] is the textbook coefficient (and the clipping is idle) *)
+Lemma pearson_R x y :
+  length x = length y -> 0 < SS x -> 0 < SS y -> pearson RR x y = pearsonR x y.
+Proof.
+  intros Hl Hx Hy. unfold pearson.
+  pose proof (SS_pos_two x Hx) as H2.
+  rewrite !mean_R. cbn [nsub nmul ndiv nsqrt n1 nofZ RR]. rewrite !dot_R.
+  rewrite dotR_centered, (dotR_centered_self x), (dotR_centered_self y).
+  assert (Hf : (Z.of_nat (length x) - 1 <=? 0)%Z = false) by (apply Z.leb_gt; lia).
+  rewrite Hf.
+  set (f := 1 / IZR (Z.of_nat (length x) - 1)).
+  assert (Hfpos : 0 < f).
+  { unfold f. apply Rdiv_lt_0_compat; [lra|]. apply IZR_lt. lia. }
+  assert (Hsf : sqrt f * sqrt f = f) by (apply sqrt_sqrt; lra).
+  assert (Hsfpos : 0 < sqrt f) by (apply sqrt_lt_R0; exact Hfpos).
+  assert (Hsx : 0 < sqrt (SS x)) by (apply sqrt_lt_R0; exact Hx).
+  assert (Hsy : 0 < sqrt (SS y)) by (apply sqrt_lt_R0; exact Hy).
+  assert (E : SXY x y * f / sqrt (SS x * f) / sqrt (SS y * f) = pearsonR x y).
+  { unfold pearsonR. rewrite !sqrt_mult by lra.
+    field_simplify_eq; [|repeat split; lra].
+    rewrite <- Hsf at 1. ring. }
+  rewrite E. apply clip1_R. apply pearsonR_bound; assumption.
+Qed.
+
+Lemma pearsonR_self x : 0 < SS x -> pearsonR x x = 1.
+Proof.
+  intros H. unfold pearsonR. rewrite SXY_self, sqrt_square by lra. field. lra.
+Qed.
+
+Lemma pearsonR_scale c x y : 0 < c -> x <> [] -> y <> [] -> 0 < SS x -> 0 < SS y ->
+  pearsonR (map (fun v => c * v) x) (map (fun v => c * v) y) = pearsonR x y.
+Proof.
+  intros Hc Hx Hy Sx Sy. unfold pearsonR.
+  assert (E : forall l, map (fun v => c * v) l = map (fun v => c * v + 0) l).
+  { intros l. apply map_ext. intros; ring. }
+  rewrite !E, SXY_affine, !SS_affine by assumption.
+  replace (c * c * SS x * (c * c * SS y)) with ((c * c) * (c * c) * (SS x * SS y)) by ring.
+  assert (Hp : 0 < SS x * SS y) by (apply Rmult_lt_0_compat; assumption).
+  rewrite sqrt_mult by nra. rewrite sqrt_square by nra.
+  assert (0 < sqrt (SS x * SS y)) by (apply sqrt_lt_R0; exact Hp).
+  field. split; nra.
+Qed.
